@@ -126,6 +126,46 @@ pub fn run(out: &mut dyn Write, rng: &mut Rng, n: usize, mutation_seeds: usize) 
             }
         }
     }
+    // stream 1d: every castling right with every kind of occupant on its rook corner (right rook, wrong-colour rook, another man of
+    // either colour, nothing) and the king at home or one file off, both sides to move
+    for (right, corner, krank, own_upper) in [("K", 7usize, 0usize, true), ("Q", 0, 0, true), ("k", 63, 7, false), ("q", 56, 7, false)] {
+        for occ in ["r", "R", "n", "N", "q", "Q", ""] {
+            for kfile in [4usize, 3, 5] {
+                for turn in ["w", "b"] {
+                    let mut cells: Vec<String> = vec![String::new(); 64];
+                    cells[4] = "K".into();
+                    cells[60] = "k".into();
+                    let home = krank * 8 + 4;
+                    cells[home] = String::new();
+                    cells[krank * 8 + kfile] = if own_upper { "K".into() } else { "k".into() };
+                    cells[corner] = occ.to_string();
+                    let mut t = String::new();
+                    for r in (0..8).rev() {
+                        let mut missing = 0;
+                        for f in 0..8 {
+                            let c = &cells[r * 8 + f];
+                            if c.is_empty() {
+                                missing += 1;
+                            } else {
+                                if missing > 0 {
+                                    t.push_str(&missing.to_string());
+                                    missing = 0;
+                                }
+                                t.push_str(c);
+                            }
+                        }
+                        if missing > 0 {
+                            t.push_str(&missing.to_string());
+                        }
+                        if r != 0 {
+                            t.push('/');
+                        }
+                    }
+                    parse_line(out, format!("{t} {turn} {right} - 0 1").as_bytes(), &mut hist);
+                }
+            }
+        }
+    }
     // stream 1c: one side with 16..24 highly mobile men (must be rejected above 16; if ever accepted, generating
     // its moves overflows the 18-entry move list)
     for n in 15..=24usize {
